@@ -10,7 +10,10 @@ CONSTANTS MaxN,       \* commits per forged history
           EtChoices,  \* edit-clock values tried on every commit
           RankDirs    \* rank assignments tried: 1 = pack ids ascending with commit number, -1 = descending
 
-EtFull == {0, 1, 2, 3, Far}
+(* Huge: a clock near the top of the 64-bit range (the harness writes 2^63 + (its value - 2000000) for values from 2000000 on:
+   TLC's integers do not reach that far); to the specification it is one more value far above the others *)
+Huge == 3000005
+EtFull == {0, 1, 2, 3, Far, Huge}
 EtSmall == {1, 2, 3}
 
 VARIABLE rd   \* rank direction of this history
